@@ -207,6 +207,15 @@ func c13Run(t *testing.T, sc Scenario, res *Result) {
 			if len(ext) == len(padded) {
 				ext = append(ext, 0xff)
 			}
+			if i%16 == 0 {
+				// the fuzzing engine grows inputs up to about a megabyte: still the same test case
+				long := make([]byte, 65536+r.intn(200000))
+				for j := range long {
+					long[j] = byte(r.next())
+				}
+				ext = append(ext, long...)
+				res.inc("tail_runs_with_more_than_64KiB")
+			}
 			inv3, status3 := run(ext)
 			if inv3 == nil || inv3.drawsKey() != key || status3 != status {
 				detail["extended_len"] = len(ext)
